@@ -250,19 +250,23 @@ Qed.
 Definition extends (s s' : sess) (dlt : list item) : Prop :=
   rbuf s' = rbuf s ++ dlt /\ dl s' = dl s ++ dlt /\ blen s' = blen s + rlen dlt /\ limit s' = limit s /\
   (eof s = true -> eof s' = true) /\ (late s = true -> late s' = true) /\
-  (eof s = true -> dlt <> [] -> late s' = true).
+  (eof s = true -> dlt <> [] -> late s' = true) /\ chunks_ok dlt.
 
 Lemma extends_refl s : extends s s [].
-Proof. unfold extends. rewrite !app_nil_r. simpl. repeat split; auto; try lia; try (intros _ H; contradiction). Qed.
+Proof. unfold extends. rewrite !app_nil_r. simpl. repeat split; auto; try lia; try (intros _ H; contradiction); constructor. Qed.
+
+Lemma chunks_ok_app a b : chunks_ok (a ++ b) <-> chunks_ok a /\ chunks_ok b.
+Proof. unfold chunks_ok. apply Forall_app. Qed.
 
 Lemma extends_trans s1 s2 s3 a b : extends s1 s2 a -> extends s2 s3 b -> extends s1 s3 (a ++ b).
 Proof.
-  intros (A1 & A2 & A3 & A4 & A5 & A6 & A7) (B1 & B2 & B3 & B4 & B5 & B6 & B7).
+  intros (A1 & A2 & A3 & A4 & A5 & A6 & A7 & A8) (B1 & B2 & B3 & B4 & B5 & B6 & B7 & B8).
   unfold extends. rewrite B1, A1, B2, A2, B3, A3, B4, A4, rlen_app, !app_assoc.
   repeat split; auto; try lia.
-  intros He Hab. destruct a as [|x a].
-  - simpl in Hab. apply B7; auto.
-  - apply B6. apply A7; [assumption|discriminate].
+  - intros He Hab. destruct a as [|x a].
+    + simpl in Hab. apply B7; auto.
+    + apply B6. apply A7; [assumption|discriminate].
+  - apply chunks_ok_app. split; assumption.
 Qed.
 
 Lemma maybe_pause_fields s :
@@ -276,13 +280,17 @@ Ltac ext_tac :=
   try (intros H; rewrite H; reflexivity);
   try (intros H; rewrite H; apply orb_true_r);
   try (intros H _; rewrite H; apply orb_true_r);
-  try (intros H _; rewrite H; reflexivity).
+  try (intros H _; rewrite H; reflexivity);
+  try (repeat constructor; simpl; discriminate).
 
 Lemma deliver_extends s e : exists dlt, extends s (deliver s e) dlt.
 Proof.
   destruct e as [d|x| |exc| |]; simpl.
-  - exists [Chunk d]. destruct (maybe_pause_fields (push s (Chunk d) (zlen d))) as (R1 & R2 & R3 & R4 & R5 & R6).
-    unfold extends. rewrite R1, R2, R3, R4, R5, R6. simpl. ext_tac.
+  - destruct d as [|z d]; simpl.
+    + exists []. apply extends_refl.
+    + exists [Chunk (z :: d)].
+      destruct (maybe_pause_fields (push s (Chunk (z :: d)) (zlen (z :: d)))) as (R1 & R2 & R3 & R4 & R5 & R6).
+      unfold extends. rewrite R1, R2, R3, R4, R5, R6. simpl. ext_tac.
   - exists [Exn x]. unfold extends. simpl. ext_tac.
   - exists []. unfold extends. simpl. rewrite !app_nil_r. ext_tac.
   - destruct (eof s) eqn:Ee.
@@ -305,9 +313,6 @@ Qed.
 (* blen is the number of buffered bytes; chunks are non-empty; nothing is buffered that was not delivered *)
 Definition SInv (s : sess) : Prop :=
   blen s = rlen (rbuf s) /\ chunks_ok (rbuf s) /\ rlen (rbuf s) <= rlen (dl s).
-
-Lemma chunks_ok_app a b : chunks_ok (a ++ b) <-> chunks_ok a /\ chunks_ok b.
-Proof. unfold chunks_ok. apply Forall_app. Qed.
 
 Lemma SInv_extends s s' dlt : SInv s -> extends s s' dlt -> chunks_ok (dl s') -> SInv s'.
 Proof.
@@ -383,29 +388,31 @@ Qed.
 Definition op_post (s s' : sess) (dlt : list item) : Prop :=
   dl s' = dl s ++ dlt /\ limit s' = limit s /\
   (eof s = true -> eof s' = true) /\ (late s = true -> late s' = true) /\
-  (eof s = true -> dlt <> [] -> late s' = true).
+  (eof s = true -> dlt <> [] -> late s' = true) /\ chunks_ok dlt.
 
 Lemma op_post_refl s : op_post s s [].
-Proof. unfold op_post. rewrite app_nil_r. repeat split; auto; try (intros _ H; contradiction). Qed.
+Proof. unfold op_post. rewrite app_nil_r. repeat split; auto; try (intros _ H; contradiction); constructor. Qed.
 
 Lemma op_post_same s s' :
   dl s' = dl s -> limit s' = limit s -> eof s' = eof s -> late s' = late s -> op_post s s' [].
 Proof.
-  intros H1 H2 H3 H4. unfold op_post. rewrite H1, H2, H3, H4, app_nil_r. repeat split; auto; try (intros _ H; contradiction).
+  intros H1 H2 H3 H4. unfold op_post. rewrite H1, H2, H3, H4, app_nil_r. repeat split; auto; try (intros _ H; contradiction);
+    constructor.
 Qed.
 
 Lemma op_post_trans s1 s2 s3 a b : op_post s1 s2 a -> op_post s2 s3 b -> op_post s1 s3 (a ++ b).
 Proof.
-  intros (A2 & A4 & A5 & A6 & A7) (B2 & B4 & B5 & B6 & B7).
+  intros (A2 & A4 & A5 & A6 & A7 & A8) (B2 & B4 & B5 & B6 & B7 & B8).
   unfold op_post. rewrite B2, A2, B4, A4, !app_assoc.
-  repeat split; auto; try (intros _ H; contradiction).
-  intros He Hab. destruct a as [|x a].
-  - simpl in Hab. apply B7; auto.
-  - apply B6. apply A7; [assumption|discriminate].
+  repeat split; auto.
+  - intros He Hab. destruct a as [|x a].
+    + simpl in Hab. apply B7; auto.
+    + apply B6. apply A7; [assumption|discriminate].
+  - apply chunks_ok_app. split; assumption.
 Qed.
 
 Lemma op_post_of_extends s s' dlt : extends s s' dlt -> op_post s s' dlt.
-Proof. intros (E1 & E2 & E3 & E4 & E5 & E6 & E7). unfold op_post. repeat split; assumption. Qed.
+Proof. intros (E1 & E2 & E3 & E4 & E5 & E6 & E7 & E8). unfold op_post. repeat split; assumption. Qed.
 
 Lemma read_loop_post exact : forall orc s n acc got o s' orc',
   read_loop exact orc s n acc got = (o, s', orc') -> exists dlt, op_post s s' dlt.
@@ -791,7 +798,7 @@ Lemma until_run_sim L seps orc s l o s' orc' :
   SInv s -> coh seps l (rbuf s) -> rpaused s = false ->
   orc' = orc /\ op_post s s' [] /\ SInv s' /\ rpaused s' = false /\ until_goal seps s s' o.
 Proof.
-  intros He H HI Hcoh Hrp. unfold until_run in H.
+  intros He H HI Hcoh Hrp. unfold until_run_v in H.
   destruct (coh_split _ _ _ Hcoh) as (cs & Hrb & Hlen & Hacc & Hbl & Hnone).
   pose proof (until_scan_sim L seps He (skipn (l_cur l) (rbuf s)) (l_cur l) (l_acc l) (l_buflen l) Hbl Hnone) as Hscan.
   destruct HI as (I1 & I2 & I3).
@@ -803,7 +810,7 @@ Proof.
     assert (Hskip : skipn c (rbuf s) = Chunk d :: post).
     { rewrite Hrb', Hc, <- Hlen, <- app_length, <- (map_length Chunk). apply skipn_app_exact. }
     rewrite Hskip in H.
-    rewrite maybe_resume_unpaused in H by (simpl; assumption). simpl after_resume in H.
+    rewrite maybe_resume_unpaused in H by (simpl; assumption). cbn [after_resume_v] in H.
     destruct (search_bounds _ _ _ _ He Hs) as [Hi0 Hi1].
     assert (Hbuf' : buf = concat (cs ++ pre) ++ d) by (rewrite concat_app, <- Hacc, <- app_assoc; exact Hbuf).
     set (tailbuf := skipn (Z.to_nat idx) buf) in *.
@@ -861,6 +868,7 @@ Proof.
         rewrite (search_nil L) by assumption. simpl. destruct (e =? SOFT_EOF); reflexivity.
       * destruct (e =? SOFT_EOF); discriminate.
     + simpl negb in H. cbv iota in H. rewrite Hskip in H. pose proof (zlen_nonneg buf) as Hzb.
+      rewrite maybe_resume_unpaused in H by (simpl; assumption). cbn [after_resume_v] in H.
       inversion H; subst o s' orc'. clear H.
       split; [reflexivity|]. split; [apply op_post_same; reflexivity|].
       split; [unfold SInv; simpl; repeat split; [lia|constructor; [exact I|assumption]|lia]|].
@@ -878,7 +886,7 @@ Proof.
     assert (Hrl : rlen (rbuf s) = zlen buf) by (rewrite Hrb', rlen_chunks, Hbuf'; reflexivity).
     assert (Htk : toks (rbuf s) = map B buf) by (rewrite Hrb', toks_chunks, Hbuf'; reflexivity).
     rewrite Hrp in H. simpl orb in H. destruct (eof s) eqn:Ee.
-    + rewrite Hskip in H. rewrite maybe_resume_unpaused in H by (simpl; assumption). simpl after_resume in H.
+    + rewrite Hskip in H. rewrite maybe_resume_unpaused in H by (simpl; assumption). cbn [after_resume_v] in H.
       inversion H; subst o s' orc'. clear H.
       split; [reflexivity|]. split; [apply op_post_same; reflexivity|].
       split; [unfold SInv; simpl; repeat split; [lia|constructor|apply rlen_nonneg]|].
@@ -1004,7 +1012,7 @@ Definition op_goal (o : op) (l : loc) (s s' : sess) (dlt : list item) (out : out
 Lemma until_run_post seps L orc s l out s' orc' :
   until_run seps L orc s l = (out, s', orc') -> exists dlt, op_post s s' dlt.
 Proof.
-  intros H. unfold until_run in H.
+  intros H. unfold until_run_v in H.
   assert (Hres : forall sx, dl sx = dl s -> limit sx = limit s -> eof sx = eof s -> late sx = late s ->
             forall o1, (let '(s2, resumed) := maybe_resume sx in
                         let '(s3, orc1) := after_resume s2 resumed orc in (o1, s3, orc1)) = (out, s', orc') ->
@@ -1013,7 +1021,7 @@ Proof.
     pose proof (maybe_resume_fields sx) as Hm. destruct (maybe_resume sx) as [s2 resumed]. simpl in Hm.
     destruct Hm as (M1 & M2 & M3 & M4 & M5 & M6).
     assert (P2 : op_post s s2 []) by (apply op_post_same; congruence).
-    unfold after_resume in Hx. destruct resumed.
+    unfold after_resume_v in Hx. destruct resumed.
     - destruct orc as [|b orc1].
       + inversion Hx; subst. exists []. assumption.
       + inversion Hx; subst. destruct (deliver_all_extends b s2) as [d3 E3].
@@ -1022,7 +1030,7 @@ Proof.
   destruct (until_scan seps L (skipn (l_cur l) (rbuf s)) (l_cur l) (l_acc l) (l_buflen l)) as [c buf idx|c buf bl|c buf bl].
   - eapply Hres; [| | | |exact H]; reflexivity.
   - destruct (negb (is_nil buf)).
-    + inversion H; subst. exists []. apply op_post_same; reflexivity.
+    + eapply Hres; [| | | |exact H]; reflexivity.
     + destruct (rbuf s) as [|[d|e] r]; inversion H; subst; exists []; try apply op_post_refl; apply op_post_same; reflexivity.
   - destruct (rpaused s || eof s).
     + eapply Hres; [| | | |exact H]; reflexivity.
@@ -1136,7 +1144,7 @@ Proof.
 Qed.
 
 Lemma op_post_late s s' dlt : op_post s s' dlt -> late s' = false -> late s = false.
-Proof. intros (_ & _ & _ & H & _) Hl. destruct (late s); [rewrite H in Hl by reflexivity; discriminate|reflexivity]. Qed.
+Proof. intros (_ & _ & _ & H & _ & _) Hl. destruct (late s); [rewrite H in Hl by reflexivity; discriminate|reflexivity]. Qed.
 
 Lemma op_post_dl_ok s s' dlt : op_post s s' dlt -> chunks_ok (dl s') -> chunks_ok (dl s).
 Proof. intros (H & _) Hc. rewrite H in Hc. apply chunks_ok_app in Hc. apply Hc. Qed.
@@ -1144,7 +1152,7 @@ Proof. intros (H & _) Hc. rewrite H in Hc. apply chunks_ok_app in Hc. apply Hc. 
 (* once EOF has been seen, a run whose final state has late = false delivered nothing more *)
 Lemma op_post_frozen s s' dlt : op_post s s' dlt -> late s' = false -> eof s = true -> dlt = [] /\ eof s' = true.
 Proof.
-  intros (_ & _ & He & _ & Hl) Hlate Heof. split; [|apply He; assumption].
+  intros (_ & _ & He & _ & Hl & _) Hlate Heof. split; [|apply He; assumption].
   destruct dlt as [|x dlt]; [reflexivity|]. rewrite Hl in Hlate; [discriminate|assumption|discriminate].
 Qed.
 
@@ -1215,6 +1223,7 @@ Proof. reflexivity. Qed.
 Lemma deliver_rpaused s e : rpaused s = false -> should_pause (deliver s e) = false -> rpaused (deliver s e) = false.
 Proof.
   intros Hrp. destruct e as [d|x| |exc| |]; simpl; try (intros _; assumption).
+  destruct d as [|z d']; simpl; [intros _; assumption|]. set (d := z :: d').
   unfold maybe_pause. remember (push s (Chunk d) (zlen d)) as x eqn:Ex.
   destruct (negb (rpaused x) && should_pause x) eqn:E.
   - rewrite should_pause_flags. apply andb_true_iff in E as [_ E]. rewrite E. discriminate.
@@ -1300,11 +1309,14 @@ Qed.
 
 Theorem sched_results lim prog sch orc :
   let w := run_sched lim prog (sch ++ [SRun orc]) in
-  Forall op_ok prog -> chunks_ok (dl (w_sess w)) -> late (w_sess w) = false ->
+  Forall op_ok prog -> late (w_sess w) = false ->
   (has_until prog = true -> lim = 0 \/ rlen (dl (w_sess w)) < lim) ->
   w_res w = spec_prog prog (toks (dl (w_sess w))) (eof (w_sess w)).
 Proof.
-  intros w Hok Hdl Hlate Hb. subst w. unfold run_sched in *. rewrite fold_left_app in *.
+  intros w Hok Hlate Hb. subst w.
+  assert (Hdl : chunks_ok (dl (w_sess (run_sched lim prog (sch ++ [SRun orc]))))).
+  { unfold run_sched_v. destruct (sched_post (sch ++ [SRun orc]) (init_world lim prog)) as [d0 (D0 & _ & _ & _ & _ & C0)].
+    rewrite D0. simpl. assumption. } unfold run_sched_v in *. rewrite fold_left_app in *.
   change (fold_left wstep [SRun orc] (fold_left wstep sch (init_world lim prog)))
     with (wstep (fold_left wstep sch (init_world lim prog)) (SRun orc)) in *.
   set (np := has_until prog) in *.
@@ -1340,13 +1352,12 @@ Corollary sched_independent lim prog sch1 orc1 sch2 orc2 :
   let w1 := run_sched lim prog (sch1 ++ [SRun orc1]) in
   let w2 := run_sched lim prog (sch2 ++ [SRun orc2]) in
   Forall op_ok prog ->
-  chunks_ok (dl (w_sess w1)) -> late (w_sess w1) = false ->
-  chunks_ok (dl (w_sess w2)) -> late (w_sess w2) = false ->
+  late (w_sess w1) = false -> late (w_sess w2) = false ->
   (has_until prog = true -> lim = 0 \/ (rlen (dl (w_sess w1)) < lim /\ rlen (dl (w_sess w2)) < lim)) ->
   toks (dl (w_sess w1)) = toks (dl (w_sess w2)) -> eof (w_sess w1) = eof (w_sess w2) ->
   w_res w1 = w_res w2.
 Proof.
-  intros w1 w2 Hok C1 L1 C2 L2 Hb Ht He.
+  intros w1 w2 Hok L1 L2 Hb Ht He.
   subst w1 w2. rewrite !sched_results; try assumption.
   - rewrite Ht, He. reflexivity.
   - intros Hu. destruct (Hb Hu) as [?|[? ?]]; [left|right]; assumption.
